@@ -4,10 +4,12 @@ package nfpm
 
 import (
 	"errors"
+	"os"
 	"strings"
 
 	"github.com/goreleaser/nfpm/v2/files"
 	v "github.com/goreleaser/nfpm/v2/internal/zzverif"
+	"github.com/goreleaser/nfpm/v2/internal/zzverif/models"
 )
 
 // Verif_C16_StrictDecoder: the parser asks the YAML decoder to reject unknown
@@ -173,4 +175,45 @@ func Verif_C16_Expansion() {
 		return general
 	}
 	v.Assert(cfg.Deb.Signature.KeyPassphrase == pick(debp) && cfg.RPM.Signature.KeyPassphrase == pick(rpmp) && cfg.APK.Signature.KeyPassphrase == pick(apkp), "passphrase-specific-then-general")
+}
+
+// Verif_C16_CallerMapping: a configuration parsed with a caller-supplied
+// mapping sees that mapping only: a name the mapping has no value for expands
+// to nothing even when the process environment defines it (values, list
+// items, passphrases).
+func Verif_C16_CallerMapping() {
+	valA := v.NondetString("map.A", 2)
+	v.Assume(v.AllIn(valA, "a-z"))
+	mapping := func(name string) string {
+		if name == "A" {
+			return valA
+		}
+		return ""
+	}
+	doc := "name: p${A}\narch: amd64\nversion: 1.0.0\nvendor: v${B}\ndepends:\n- ${B}\n- d${A}\n"
+	if v.Symbolic() {
+		models.Env["A"], models.Env["B"], models.Env["NFPM_PASSPHRASE"], models.Env["NFPM_DEB_PASSPHRASE"] = "procA", "procB", "leak", "leak2"
+		v.Store("yaml.fill", func(t any) error {
+			c := t.(*Config)
+			c.Name, c.Arch, c.Version, c.Vendor = "p${A}", "amd64", "1.0.0", "v${B}"
+			c.Depends = []string{"${B}", "d${A}"}
+			return nil
+		})
+		v.Store("semver.next", errNotSemver)
+	} else {
+		os.Setenv("A", "procA")
+		os.Setenv("B", "procB")
+		os.Setenv("NFPM_PASSPHRASE", "leak")
+		os.Setenv("NFPM_DEB_PASSPHRASE", "leak2")
+	}
+	cfg, err := ParseWithEnvMapping(strings.NewReader(doc), mapping)
+	v.Reach("C16.mapping.ran")
+	v.Assert(err == nil, "parse-succeeds-on-a-decodable-document")
+	if err != nil {
+		return
+	}
+	v.Assert(cfg.Name == "p"+valA, "reference-expanded-with-the-callers-mapping")
+	v.Assert(cfg.Vendor == "v", "name-unknown-to-the-callers-mapping-expands-to-nothing")
+	v.Assert(len(cfg.Depends) == 1 && cfg.Depends[0] == "d"+valA, "list-item-unknown-to-the-callers-mapping-is-dropped")
+	v.Assert(cfg.Deb.Signature.KeyPassphrase == "" && cfg.RPM.Signature.KeyPassphrase == "" && cfg.APK.Signature.KeyPassphrase == "", "passphrases-come-from-the-callers-mapping-only")
 }
